@@ -235,5 +235,17 @@ func Specs() map[string]*PropSpec {
 		Assumptions: []string{"as C04; erc20 keeper's GetCoinAddress / GetERC20Map / GetTokenPair replaced by a registry table; bank keeper stub iterates in denomination order"},
 		Stubs:       []string{"c16Bank", "c16 registry"},
 	}
+	ek := func(fn string) Inst { return Inst{Pkg: "x/erc20/keeper", Fn: fn, Params: pm(), EngineReplay: true} }
+	c10 := []Inst{ek("VerifC10_ConvertCoin"), ek("VerifC10_ConvertERC20"), ek("VerifC10_Adversarial"), ek("VerifC10_Hook"), ek("VerifC10_HookUntrustedLog")}
+	m["C10"] = &PropSpec{
+		ID: "C10", Pkgs: []string{"./x/erc20/keeper"}, Quick: c10, Thorough: c10,
+		Bounds: map[string]string{
+			"quick":    "one conversion from an arbitrary fully backed state of one pair (coin-origin and ERC20-origin), amounts and balances < 2^100: MsgConvertCoin, MsgConvertERC20 against the honest contract ledger; both messages against an adversarial contract (every call: arbitrary revert / return value / reported balance / Approval log); the EVM hook over receipts of <= 2 logs (registered / unregistered contract x Transfer / Approval / unknown event x recipient module / other x amount); the hook against a registered contract that emits an unbacked Transfer log",
+			"thorough": "same",
+		},
+		Outside:     []string{"the Solidity bytecode of ERC20MinterBurnerDecimals (its ledger semantics are the stub)", "IBC callbacks, the bank-send wrapper and pair toggles (they end in ConvertCoin / ConvertERC20, decided here)", "sequences of conversions (each step is proved from an arbitrary backed state: inductive)"},
+		Assumptions: []string{"abi.ABI Pack / Unpack / UnpackIntoInterface / EventByID replaced by passing Go values", "EVM keeper (interface) = token contract stub; bank keeper = ledger stub", "counterexamples confirmed by concrete re-execution in the SSA interpreter"},
+		Stubs:       []string{"c10EVM (token contract: honest ledger / adversarial)", "c10Bank", "c10AK"},
+	}
 	return m
 }
